@@ -231,6 +231,8 @@ structure Pos (α : Type) where
   salp2 : α
   calp2 : α
   B12 : α
+  /-- the spherical longitude difference (unrolled or reduced, as requested) before the ellipsoidal correction -/
+  omg12 : α
 
 /-- `|f| > 0.01`: the reverted series is corrected by one Newton step -/
 def newtonp (f : α) : Bool := ltb (RealLike.ofDec 1 2) (RealLike.abs f)
@@ -309,6 +311,6 @@ def genPosition (L : Line α) (arcmode : Bool) (s12_a12 ssig12k csig12k : α) (u
     else sq L.salp0 + sq L.calp0 * L.csig1 * csig2
   let S12 := L.c2 * RealLike.atan2 salp12 calp12 + L.A4 * (B42 - L.B41)
   let a12 := if arcmode then s12_a12 else sig12 / degree
-  ⟨a12, lat2, lon12, L.lon1 + lon12, azi2, s12, m12, M12, M21, S12, sig12, ssig2, csig2, sbet2, cbet2, salp2, calp2, B12⟩
+  ⟨a12, lat2, lon12, L.lon1 + lon12, azi2, s12, m12, M12, M21, S12, sig12, ssig2, csig2, sbet2, cbet2, salp2, calp2, B12, omg12⟩
 
 end GeoVerif.GeodLine
